@@ -146,6 +146,9 @@ struct Query {
     /// merges issued before the query (seq < issue_seq) precede its scan in every
     /// shard queue, so a delivered result implies they have taken effect
     issue_seq: u64,
+    /// false for a query without candidates: no command is queued at all, so draining it
+    /// says nothing about the merges issued before it
+    commands_sent: bool,
 }
 
 #[derive(Default)]
@@ -436,7 +439,7 @@ impl<'a> Client<'a> {
             }
             Drain::Drop => drop(err),
         }
-        if got_ok.is_some() || got_err.is_some() {
+        if (got_ok.is_some() || got_err.is_some()) && q.commands_sent {
             let iseq = q.issue_seq;
             self.model.cands = self.model.expand(&|p| p.seq < iseq);
             self.model.prune();
@@ -900,6 +903,7 @@ impl<'a> Client<'a> {
                     err: Some(err),
                     expects,
                     owned: false,
+                    commands_sent: !cands.is_empty(),
                     issue_seq: self.model.next_seq,
                 });
             }
@@ -932,6 +936,7 @@ impl<'a> Client<'a> {
                     err: Some(err),
                     expects,
                     owned: true,
+                    commands_sent: true, // pending merges were awaited above (barrier)
                     issue_seq: self.model.next_seq,
                 });
             }
